@@ -30,7 +30,7 @@ Proof. intros. unfold run_vm, run_vm_n. now rewrite vm_run_p_n. Qed.
 (* ================================================================================================================ *)
 (* Scaling: the VM run on the transformed commands is the scaled VM run (for all command lists, incl. loops) *)
 From Coq Require Import Setoid Morphisms Field Lra.
-Open Scope Q_scope.
+Local Open Scope Q_scope.
 
 Definition reg_rel (tr : list (Q * Q)) (a b : (nat * key) * Q) : Prop :=
   fst a = fst b /\ snd b == scale_of tr (fst (fst a)) (snd a).
@@ -225,8 +225,8 @@ Qed.
 
 (* ================================================================================================================ *)
 (* refutations of the unguarded staircase statement on the faithful model (witnesses = known findings) *)
-Close Scope Q_scope.
-Open Scope Z_scope.
+Local Close Scope Q_scope.
+Local Open Scope Z_scope.
 
 Definition q (n : Z) (d : positive) : Q := Qmake n d.
 Definition wit_rep : src :=
